@@ -409,6 +409,15 @@ func cfElements(r *hx.Result, rng *rand.Rand) {
 		{"list required absent", map[string]string{"-p.appenderRef.ref": ""}, true, nil},
 		{"list element missing required attribute", map[string]string{"-p.appenderRef.ref": "", "p.appenderRef[0].level": "warn"}, true, nil},
 		{"list element ill-typed attribute", map[string]string{"p.appenderRef.level": "NOLEVEL"}, true, nil},
+		{"list element (single form) with unknown explicit type", map[string]string{"p.appenderRef.type": "NoSuchRef"}, true, nil},
+		{"list element (single form) with a type of another category", map[string]string{"p.appenderRef.type": "Console"}, true, nil},
+		{"list element (indexed form) with unknown explicit type", map[string]string{"-p.appenderRef.ref": "", "p.appenderRef[0].ref": "a", "p.appenderRef[1].ref": "b", "p.appenderRef[1].type": "NoSuchRef"}, true, nil},
+		{"list element with its own explicit type", map[string]string{"p.appenderRef.type": "AppenderRef"}, false, func(p *ProbeAppender) string {
+			if len(p.Refs) != 1 || p.Refs[0].Ref != "x" {
+				return fmt.Sprintf("refs %v", p.Refs)
+			}
+			return ""
+		}},
 	}
 	for _, c := range cases {
 		s := flatten.NewStorage()
@@ -490,7 +499,7 @@ func cfWholeBase(dir string) map[string]string {
 		"appender.con.layout.type":        "JSONLayout",
 		"appender.fil.type":               "File",
 		"appender.fil.fileDir":            dir,
-		"appender.fil.fileName":           "f.log",
+		"appender.fil.fileName":           `f\temp\new.log`, // backslashes followed by escape letters must survive the inline form
 		"appender.rol.type":               "RollingFile",
 		"appender.rol.fileDir":            dir,
 		"appender.rol.fileName":           "r.log",
@@ -595,7 +604,7 @@ func cfWhole(r *hx.Result, rng *rand.Rand, tmp string, mutations int) {
 	base := cfWholeBase(dir)
 	// 1. every spelling x flat / inline form of some sub-trees: must succeed, and instantiate what was written
 	for _, style := range []string{"camel", "kebab", "snake", "capital"} {
-		for _, form := range []string{"flat", "expr:appender.rol", "expr:logger.asy", "expr:logger.rfl", "expr:appender.con"} {
+		for _, form := range []string{"flat", "expr:appender.rol", "expr:logger.asy", "expr:logger.rfl", "expr:appender.con", "expr:appender.fil"} {
 			reset()
 			h := log.GetLogger("asy")
 			cfg := base
@@ -630,6 +639,9 @@ func cfWhole(r *hx.Result, rng *rand.Rand, tmp string, mutations int) {
 				r.Violate("instantiated-values", desc, "logger asy is %T %+v", log.VerifHandleLogger(h), log.VerifHandleLogger(h))
 			} else {
 				for _, ref := range al.AppenderRefs.AppenderRefs {
+					if fa, ok := ref.Appender.(*log.FileAppender); ok && fa.FileName != `f\temp\new.log` {
+						r.Violate("instantiated-values", desc, "file appender instantiated with fileName %q, configured %q", fa.FileName, `f\temp\new.log`)
+					}
 					if ra, ok := ref.Appender.(*log.RollingFileAppender); ok {
 						if ra.MaxAge != 24 || ra.FileName != "r.log" || ra.Rotation.Interval != time.Hour || ref.Level.MinLevel != log.WarnLevel {
 							r.Violate("instantiated-values", desc, "rolling appender instantiated as %+v (ref level %v)", ra, ref.Level)
@@ -702,6 +714,32 @@ func cfWhole(r *hx.Result, rng *rand.Rand, tmp string, mutations int) {
 			r.Violate("config-panic:"+strings.ReplaceAll(e.name, " ", "-"), desc, "Refresh panicked for %q: %v", e.name, p)
 		case err == nil:
 			r.Violate("bad-config-accepted:"+strings.ReplaceAll(e.name, " ", "-"), desc, "Refresh accepted a configuration with %s", e.name)
+		}
+	}
+	// 2b. a dangling reference must be rejected whatever was configured before: Refresh(valid); Destroy; Refresh(the
+	// same configuration without the appender "rec" but still referencing it) - no registry reset in between
+	{
+		reset()
+		m := map[string]string{}
+		for k, v := range base {
+			m[k] = v
+		}
+		desc := map[string]any{"history": "Refresh(valid); Destroy; Refresh(reference to an appender only the previous configuration declared)"}
+		if err, p, ret := refresh(m); !ret || p != nil || err != nil {
+			r.Violate("spelling-or-form-rejected:history", desc, "first Refresh failed: ret=%v panic=%v err=%v", ret, p, err)
+		} else {
+			hx.Within(10*time.Second, func() { log.Destroy() })
+			delete(m, "appender.rec.type")
+			err, p, ret := refresh(m)
+			r.Eval(1)
+			switch {
+			case !ret:
+				r.Violate("blocked:refresh", desc, "second Refresh did not return")
+			case p != nil:
+				r.Violate("config-panic:dangling-ref-history", desc, "second Refresh panicked: %v", p)
+			case err == nil:
+				r.Violate("bad-config-accepted:dangling-ref-after-destroy", desc, "a reference to an appender that only the previous (destroyed) configuration declared was accepted")
+			}
 		}
 	}
 	// 3. random mutations of the valid configuration: any outcome but a panic or a hang
